@@ -1,4 +1,5 @@
 mod ast;
+mod child;
 mod codec;
 mod drive;
 mod http;
@@ -13,6 +14,12 @@ fn main() {
   if args.len() >= 3 && args[1] == "probe" {
     probe(&args[2..]);
     return;
+  }
+  if args.len() >= 6 && args[1] == "child" {
+    match args[2].as_str() {
+      "c05" => child::child_main(&args[3..], drive::c05::child_case),
+      _ => std::process::exit(2),
+    }
   }
   if args.len() < 4 || args[1] != "check" {
     eprintln!("usage: dmntk-verif check <ID> quick|thorough | check <ID> --replay <path>");
@@ -39,6 +46,7 @@ fn main() {
     "C02" => drive::c02::check(Ctx::new(id, &tier, "exploration"), replay),
     "C03" => drive::c03::check(Ctx::new(id, &tier, "exploration"), replay),
     "C04" => drive::c04::check(Ctx::new(id, &tier, "exploration"), replay),
+    "C05" => drive::c05::check(Ctx::new(id, &tier, "exploration"), replay),
     "C06" => drive::c06::check(Ctx::new(id, &tier, "exploration"), replay),
     "C07" => drive::c07::check(Ctx::new(id, &tier, "exploration"), replay),
     "C08" => drive::c08::check(Ctx::new(id, &tier, "exploration"), replay),
